@@ -22,7 +22,7 @@ LEVEL = {
     "C13": "Status-byte clauses only: complete loop-free Kani harnesses over all 256 bytes, and Verus proof of the client's status mapping. CBOR clauses are not decidable.",
     "C15": "Deductive proof (Verus) of panic-freedom (index / slice / overflow / unwrap / unreachable) of the hand-written decoders of untrusted input: CTAPHID receiver for any packet length and sequence, U2F raw request decoder, public-suffix lookup, the authenticator-data decoder's own slicing and allocation (over reader models), sequence-visitor pre-allocation. Other decoders (CBOR, JSON, COSE, nom fingerprint parser) are outside both verifiers' reach and are listed as not covered.",
     "C16": "Deductive proof (Verus): header layouts, size check, the receiver's step relation for every 64-byte packet, and the reassembly and interleaving theorems for all payloads 0..7609 and all schedules (lemmas over handle_packet's own postcondition). The sender loop is checked by bounded Kani harnesses in the thorough tier.",
-    "C17": "Deductive proof (Verus) that every well-formed extended-length register / authenticate / version frame parses to that request, field by field. The three response encoders are proved to produce exactly the layouts of the property (unit enc, over rule R23's byte-chain model of into_iter / chain / collect); bounded Kani harnesses check the same layouts on the compiled crate. Partial: signatures and their signing input are not decidable.",
+    "C17": "Deductive proof (Verus) that every well-formed extended-length register / authenticate / version frame parses to that request, field by field. The three response encoders are proved to produce exactly the layouts of the property (unit enc, over rule R23's byte-chain model of into_iter / chain / collect); bounded Kani harnesses check the same layouts on the compiled crate. The real U2fApi::register / authenticate bodies are proved to sign exactly the byte strings of the property with the fresh / stored key and to store / look up the credential for (application, key handle) (unit cer). Partial: that an ECDSA signature verifies is p256 (assumed; checked concretely by the c17 replay sweep only when a clause fails).",
     "C18": "Deductive proof (Verus) on the real impl Ctap2Api for Authenticator: each forwarding method terminates (no self-recursion) and returns the same result and final state as the inherent method (uninterpreted functions of state and request); method resolution is rustc's own.",
 }
 NOTE = "Trusted: Verus/Z3, the extractor's dialect rewrites (DESIGN.md section 9), the std prelude and dependency models listed in the evidence file's trusted_base (found mechanically on every run). See DESIGN.md section 7."
